@@ -143,6 +143,23 @@ func (r *Run) Outcome(k string, n int64) {
 	r.mu.Unlock()
 }
 
+// FoldOutcomes rewrites the outcome histogram: f maps each label to a new label and to
+// counters to add to the coverage keys (used to carry per-case counters through worker output).
+func (r *Run) FoldOutcomes(f func(label string, n int64) (string, map[string]int64)) {
+	r.mu.Lock()
+	defer r.mu.Unlock()
+	nw := map[string]int64{}
+	for k, n := range r.outcomes {
+		l, add := f(k, n)
+		nw[l] += n
+		for ck, cv := range add {
+			v, _ := r.extra[ck].(int64)
+			r.extra[ck] = v + cv
+		}
+	}
+	r.outcomes = nw
+}
+
 func (r *Run) totals() (evals int64, distinct int) {
 	for i := range r.shards {
 		sh := &r.shards[i]
